@@ -860,6 +860,11 @@ func (c *Ctx) ruleSizeEquations(prefix string) {
 					if s2.Block() == st.Block() && precedes(s2, st) || s2.Block() != st.Block() && s2.Block().Dominates(st.Block()) {
 						last = s2
 					}
+					// or it is assigned right after, on every way out from here (the two
+					// assignments written in the other order): the Size the list ends up with
+					if last == nil && (s2.Block() == st.Block() && precedes(st, s2) || s2.Block() != st.Block() && st.Block().Dominates(s2.Block()) && everyExitPasses(fn, st.Block(), s2.Block())) {
+						last = s2
+					}
 				})
 				if last != nil {
 					delta := a.clone()
